@@ -251,6 +251,10 @@ def knownInventory : List (String × String × String × String) := [
   ("opening-hours/src/localization/localize.rs", "log::warn!", "log-call", "from_coords"),
   -- cells boundaries, dbPublic, dbSchool; the warning is logged inside the initialiser of the two DBs
   ("opening-hours/src/localization/country/mod.rs", "BOUNDARIES", "static-LazyLock", "try_from_coords"),
+  -- the decoded database is a `HashMap<Country, Arc<CompactCalendar>>` (return type of the decoder): it is
+  -- only ever looked up by key (`.get(&country)`), never iterated, so the per-instance random state of
+  -- its hasher cannot reach a result; any OTHER hash container appearing in the sources breaks this tie
+  ("opening-hours/src/localization/country/mod.rs", "HashMap", "hash-container", "holidays"),
   ("opening-hours/src/localization/country/mod.rs", "log::warn!", "log-call", "decode_holidays_db"),
   ("opening-hours/src/localization/country/mod.rs", "DB_PUBLIC", "static-LazyLock", "holidays"),
   ("opening-hours/src/localization/country/mod.rs", "DB_SCHOOL", "static-LazyLock", "holidays"),
